@@ -233,6 +233,91 @@ fn hlt_case(init: &bool, obs: &mut Obs) -> CaseResult {
     Ok(())
 }
 
+/// Many live values across the calls: the wrappers must not disturb the caller's state (e.g. by an
+/// asm block that pushes onto the stack while claiming `nostack`, which clobbers the red zone of an
+/// inlined leaf caller in optimised builds) and must return exactly the closure's result.
+#[inline(never)]
+fn live_values(v: &[u64; 24], mode: u8) -> (u64, u64, bool) {
+    use std::hint::black_box;
+    let (a0, a1, a2, a3, a4, a5, a6, a7) = (black_box(v[0]), black_box(v[1]), black_box(v[2]), black_box(v[3]), black_box(v[4]), black_box(v[5]), black_box(v[6]), black_box(v[7]));
+    let (b0, b1, b2, b3, b4, b5, b6, b7) = (black_box(v[8]), black_box(v[9]), black_box(v[10]), black_box(v[11]), black_box(v[12]), black_box(v[13]), black_box(v[14]), black_box(v[15]));
+    let (c0, c1, c2, c3, c4, c5, c6, c7) = (black_box(v[16]), black_box(v[17]), black_box(v[18]), black_box(v[19]), black_box(v[20]), black_box(v[21]), black_box(v[22]), black_box(v[23]));
+    let mid: u64;
+    let flag: bool;
+    match mode % 3 {
+        0 => {
+            flag = interrupts::are_enabled();
+            mid = a3 ^ b5;
+        }
+        1 => {
+            let r = interrupts::without_interrupts(|| (interrupts::are_enabled(), a1.wrapping_mul(3) ^ c2));
+            flag = r.0;
+            mid = r.1;
+        }
+        _ => {
+            let r = interrupts::without_interrupts(|| interrupts::without_interrupts(|| (interrupts::are_enabled(), b7.rotate_left(9).wrapping_add(c6))));
+            flag = r.0;
+            mid = r.1;
+        }
+    }
+    let sum = a0
+        .wrapping_add(a1.rotate_left(1))
+        .wrapping_add(a2.rotate_left(2))
+        .wrapping_add(a3.rotate_left(3))
+        .wrapping_add(a4.rotate_left(4))
+        .wrapping_add(a5.rotate_left(5))
+        .wrapping_add(a6.rotate_left(6))
+        .wrapping_add(a7.rotate_left(7))
+        .wrapping_add(b0.rotate_left(8))
+        .wrapping_add(b1.rotate_left(9))
+        .wrapping_add(b2.rotate_left(10))
+        .wrapping_add(b3.rotate_left(11))
+        .wrapping_add(b4.rotate_left(12))
+        .wrapping_add(b5.rotate_left(13))
+        .wrapping_add(b6.rotate_left(14))
+        .wrapping_add(b7.rotate_left(15))
+        .wrapping_add(c0.rotate_left(16))
+        .wrapping_add(c1.rotate_left(17))
+        .wrapping_add(c2.rotate_left(18))
+        .wrapping_add(c3.rotate_left(19))
+        .wrapping_add(c4.rotate_left(20))
+        .wrapping_add(c5.rotate_left(21))
+        .wrapping_add(c6.rotate_left(22))
+        .wrapping_add(c7.rotate_left(23));
+    (sum, mid, flag)
+}
+
+fn live_case(c: &(Vec<u64>, u8, bool), obs: &mut Obs) -> CaseResult {
+    let (vals, mode, init) = c;
+    let mut v = [0u64; 24];
+    for (i, x) in vals.iter().take(24).enumerate() {
+        v[i] = *x;
+    }
+    let cp = cpu();
+    cp.reset();
+    cp.set_if(*init);
+    cp.set_flags_overlay(true, 0, 0);
+    let (sum, mid, flag) = live_values(&v, *mode);
+    let fin = cpu().if_flag;
+    cp.reset();
+    let mut want = 0u64;
+    for i in 0..24 {
+        want = want.wrapping_add(v[i].rotate_left(i as u32));
+    }
+    let want_mid = match mode % 3 {
+        0 => v[3] ^ v[13],
+        1 => v[1].wrapping_mul(3) ^ v[18],
+        _ => v[15].rotate_left(9).wrapping_add(v[22]),
+    };
+    let want_flag = if mode % 3 == 0 { *init } else { false };
+    ensure_eq!(sum, want, "values that were live in the caller across the call (mode {}) changed", mode % 3);
+    ensure_eq!(mid, want_mid, "result returned through without_interrupts (mode {})", mode % 3);
+    ensure_eq!(flag, want_flag, "are_enabled() (mode {}, initial IF {})", mode % 3, init);
+    ensure_eq!(fin, *init, "interrupt flag afterwards");
+    obs.nontrivial(&(mode % 3, *init, v[0] & 0xff));
+    Ok(())
+}
+
 pub fn run(run: &mut Run) {
     umh::install();
     run.assume("cli/sti/hlt executed in ring 3 raise #GP and are emulated on an emulated IF; rflags::read_raw shows that IF through hook H2 (pushfq cannot be trapped)");
@@ -244,6 +329,14 @@ pub fn run(run: &mut Run) {
         n,
         (any::<bool>(), proptest::collection::vec(stmt(), 0..6), prop_oneof![Just(0u64), any::<u64>(), Just(u64::MAX)], any::<u64>()),
         prog,
+    );
+    let n = run.cases(60_000, 2_000_000);
+    run.sub(
+        "live_state",
+        "a non-inlined caller with 24 live u64 values calls are_enabled() / without_interrupts(closure using some of them) / a doubly nested without_interrupts in its middle: every live value, the closure's result and the reported flag must be exact (catches wrappers that disturb the caller's stack or registers, e.g. a pushfq under `nostack` clobbering the red zone in optimised builds)",
+        n,
+        (proptest::collection::vec(any::<u64>(), 24), 0u8..3, any::<bool>()),
+        live_case,
     );
     run.exhaustive(
         "enable_and_hlt",
